@@ -80,8 +80,11 @@ package main
 // (or on an interrupt signal / an error).
 
 //@ func file
-//@   property C13
+//@   property C13 C08 C09
 //@   returns (f, err)
+//@   ghost truncated bool = false
+//@   at call Create: ghost truncated = true
+//@   ensures [an-output-file-is-created-empty] create && name != "stdin" && name != "stdout" && err == nil ==> truncated
 //@   assume [standard-streams-open-and-unread] os.Stdin != nil && os.Stdout != nil && live(os.Stdin) && rsrc(os.Stdin) == ref(os.Stdin) && consumed(os.Stdin) >= 0
 //@                                               && live(os.Stdout) && rsrc(os.Stdout) == ref(os.Stdout) && consumed(os.Stdout) >= 0
 //@   ensures [file-or-error] err == nil ==> f != nil && live(f) && rsrc(f) == ref(f) && consumed(f) >= 0
@@ -152,7 +155,7 @@ package main
 // Everything the command sets up afterwards (resolver, TLS, prometheus, the Attacker's options) is
 // over-approximated (pragma unknowncalls havoc): the guard must hold whatever that code does.
 //@ func attack
-//@   property C19 C02 C04 C14 C18
+//@   property C19 C02 C03 C04 C05 C14 C15 C18
 //@   pragma unknowncalls havoc
 //@   pragma obligations contract
 //@   pragma frame off
@@ -163,6 +166,13 @@ package main
 //@   ghost bodyRead bool = false
 //@   at call Attack: ghost attacked = true
 //@   at call ReadAll: ghost bodyRead = true
+//@   ghost libtr ref = 0
+//@   ghost libenc ref = 0
+//@   at call NewJSONTargeter: ghost libtr = ref(result)
+//@   at call NewHTTPTargeter: ghost libtr = ref(result)
+//@   at call NewStaticTargeter: ghost libtr = ref(result)
+//@   at call NewEncoder: ghost libenc = ref(result)
+//@   before call processAttack: assert [results-written-by-the-library-encoder-itself] ref(arg2) == libenc
 //@   forbid [only-the-signal-pump-stops-the-attack] call Stop
 //@   before call NewJSONTargeter: assert [default-body-and-headers-forwarded] (opts.bodyf != "" ==> bodyRead) && arg1 == body && arg2 == opts.headers.Header
 //@   before call NewHTTPTargeter: assert [default-body-and-headers-forwarded] (opts.bodyf != "" ==> bodyRead) && arg1 == body && arg2 == opts.headers.Header
@@ -182,7 +192,8 @@ package main
 //@   before call ConnectTo: assert [flag-forwarded-unchanged] arg0 == opts.connectTo
 //@   before call SessionTickets: assert [flag-forwarded-unchanged] arg0 == opts.sessionTickets
 //@   before call ProxyHeader: assert [flag-forwarded-unchanged] arg0 == opts.proxyHeaders.Header
-//@   before call Attack: assert [rate-duration-and-name-forwarded-unchanged] arg2 == boxof(opts.rate) && arg3 == opts.duration && arg4 == opts.name
+//@   before call Attack: assert [rate-duration-and-name-forwarded-unchanged] arg2 == boxof(opts.rate) && arg3 == opts.duration && arg4 == opts.name ;
+//@        assert [attack-draws-from-the-library-targeter-itself] ref(arg1) == libtr
 //@   ensures [unlimited-rate-demands-max-workers] old(opts.maxWorkers) == 18446744073709551615 && old(opts.rate.Freq) == 0 ==> err != nil && !attacked
 //@   loop 1
 //@     invariant -1 <= rangeindex && rangeindex < 2 && opts == old(opts) && !attacked && !bodyRead && files != nil
